@@ -101,6 +101,37 @@ CHECKS = {
         "note": TRUSTED + " 'Published position' means the bundled table; positions edited in the data are C17/C06 "
                           "matters.",
     },
+    "C12": {
+        "technique": "TLA+ spec (Lookup, Load-composed bank list) + TLC: exhaustive small-registry model MC_Lookup, "
+                     "model registries replayed through the library's index builders, trace validation (TraceLookup) "
+                     "of lookups over the real registry",
+        "text": "MC_Lookup: every bank list of <= 3 entries over 60 entry values (219,661 states); in each, for every "
+                "key, the implementation-shaped lookup gives an answer the normative predicates allow (candidates = "
+                "non-empty BICs of the key, primaries first; choice 8-char / XXX / first; unlisted empty; "
+                "invertible). ~6e3..5e4 model registries are replayed in-process through registry.save/build_index "
+                "and 16 queries each. Real registry (bank list composed by the Load machine incl. v2 expansion): "
+                "2,500 / all 22,753 keys, unlisted and malformed pairs, 1,200 / all BICs reversed, IBANs around "
+                "listed / unlisted banks of every country with banks (bic, bank, names).",
+        "design_ref": "DESIGN.md section 5, C12",
+        "note": TRUSTED + " Order inside the primary/non-primary groups and which of several generic candidates is "
+                          "chosen are deliberately not demanded.",
+    },
+    "C18": {
+        "technique": "TLA+ spec (JsonTree.Merge / EffectiveDict / EffectiveList / ExpandV2, Load machine) + TLC: "
+                     "exhaustive MC_Merge and MC_Load, every model pair / directory replayed into merge_dicts and the "
+                     "real loader, trace validation (TraceRegistry) of the real tree's registries",
+        "text": "MC_Merge: all 144x144 pairs (and 36^3 triples) of dictionaries of depth <= 2: leaves of the result = "
+                "later-wins characterisation without recursion, overlay locality, left-fold law (TLC refuted naive "
+                "associativity; it holds for type-compatible documents); MC_Load: every directory of <= 3 files, "
+                "every listing order. Replay: every pair through registry.merge_dicts (result and unchanged "
+                "arguments), every directory (plus v2 documents under 5 names, deep/unicode/null documents) through "
+                "registry.get in a scratch copy; the real tree's country table and 29,451-entry bank list must equal "
+                "what the Load machine composes from the raw files; an overlay file changes exactly what it names "
+                "(validation outcomes follow).",
+        "design_ref": "DESIGN.md section 5, C18",
+        "note": TRUSTED + " Dictionary key order is not significant; the compiled regex objects the library adds to "
+                          "the table are dropped before comparison.",
+    },
 }
 
 NOT_YET = {
